@@ -207,7 +207,10 @@ def valid_schema(draw, profile='lang', max_groups=6, max_elements=6, counters=No
           d = max(d, depth[g['name']] + 1)
     own = []
     free = [n for n in attr_names if n not in acc]
-    for n in draw(st.permutations(free))[:draw(st.integers(0 if members else 1, 3))]:
+    n_own = draw(st.integers(0 if members else 1, 3))
+    if gen and b(0.6):
+      n_own = max(n_own, 2)         # room for a presence constraint inside the group
+    for n in draw(st.permutations(free))[:n_own]:
       at = gen_attr(n, variant, allow_id=not gen)
       own.append(n)
       members.insert(draw(st.integers(0, len(members))), at)
@@ -215,7 +218,12 @@ def valid_schema(draw, profile='lang', max_groups=6, max_elements=6, counters=No
     exp = []
     for m in members:
       exp += expanded[m['group']] if m['kind'] == 'use' else [m['name']]
-    members += gen_constraints(own, 1)
+    gc = gen_constraints(own, 1)
+    if gen and not gc and len(own) >= 2 and b(0.7):
+      # generators collect the constraints of all (transitively) used groups per element: make constraint-bearing groups
+      # frequent so that elements reaching >= 2 of them occur in every run
+      gc = [dict(kind='con', verb=pick(VERBS[:2] + ['oneof']), bundles=[(own[0],), (own[1],)], doc=docs())]
+    members += gc
     groups.append(dict(name=name, variant=variant, members=members, doc=docs()))
     expanded[name] = exp
     depth[name] = d
@@ -242,7 +250,12 @@ def valid_schema(draw, profile='lang', max_groups=6, max_elements=6, counters=No
   for ei, name in enumerate(names):
     members = []
     acc = []
-    for g in draw(st.permutations(groups))[:draw(st.integers(0, 3))]:
+    n_use = draw(st.integers(0, 3))
+    if gen and b(0.5):
+      n_use = max(n_use, 2)
+    for g in draw(st.permutations(groups))[:n_use + 2]:
+      if sum(1 for m in members if m['kind'] == 'use') >= n_use:
+        break
       if not set(expanded[g['name']]) & set(acc):
         members.append(dict(kind='use', group=g['name']))
         acc += expanded[g['name']]
